@@ -182,16 +182,17 @@ func runC10(c *Ctx, d c10Desc) {
 		// They are refused - and the timed-out invocation stays what it is: never dispatched, empty answer.
 		expectFirst = "timeout"
 		hk.Hold("handleReset.flowsCancelled", 0)
+		hk.Hold("invoke.initFailed", 0)
 		first = w.E.InvokeAsync(payload, vh.InvokeOpts{})
 		if !hk.WaitHeld("handleReset.flowsCancelled", 5*time.Second) {
 			c.Inconclusive("hook handleReset.flowsCancelled not reached")
 			return
 		}
-		// the cancelled init makes the waiting invocation's helper shut the environment down; that shutdown
-		// is kept busy (the exit notification of the killed runtime is held back) while the extras arrive
-		hk.Hold("watchEvents.received", 0)
-		if !hk.WaitHeld("watchEvents.received", 5*time.Second) {
-			c.Inconclusive("hook watchEvents.received not reached")
+		// the goroutine that waited for the initialisation on the first caller's behalf is held where it learns
+		// that the init failed (it is about to look at "did my invocation time out?"), the reset is held after
+		// cancelling the flows: both are pending while the extras arrive
+		if !hk.WaitHeld("invoke.initFailed", 5*time.Second) {
+			c.Inconclusive("hook invoke.initFailed not reached")
 			return
 		}
 		time.Sleep(2 * time.Millisecond)
@@ -199,7 +200,7 @@ func runC10(c *Ctx, d c10Desc) {
 		for _, x := range extras {
 			x.Wait(3 * time.Second)
 		}
-		hk.Release("watchEvents.received")
+		// the reset goes on and finishes; the helper stays held until the NEXT invocation has been served
 		hk.Release("handleReset.flowsCancelled")
 	} else if d.Phase == "init" {
 		before := hk.Arrived()["invoke.reserved"]
@@ -376,19 +377,6 @@ func runC10(c *Ctx, d c10Desc) {
 		c.Check(n == d.History+1 || (d.Phase == "init" && n == 1), "no_extra_dispatch", "C10/extra-dispatched/"+d.Phase, fmt.Sprintf("runtime received %d events, expected %d", n, d.History+1), nil)
 	}
 
-	if d.Phase == "initTimedOut" {
-		// give a wrongly dispatched event the time to travel through the next generation
-		time.Sleep(150 * time.Millisecond)
-		n := 0
-		for _, e := range w.E.Log.Snapshot() {
-			if e.Kind == "ret" && e.Op == "next" && e.Status == 200 && e.Len == len(payload) && e.Sha == vh.Digest(payload) {
-				n++
-			}
-		}
-		c.Check(n == 0, "timed_out_not_dispatched", fmt.Sprintf("C10/timed-out-invocation-dispatched/%d", n), "the invocation that timed out while waiting for init was delivered to a runtime after extra callers had been refused", nil)
-		c.Check(len(first.W.Body()) == 0 && first.W.LateWrites() == 0, "first_body", "C10/first-body/"+d.Phase, "the timed-out invocation received a body", string(first.W.Body()))
-	}
-
 	// --- "returned" phase: a caller right after completion must be served ---
 	if d.Phase == "returned" {
 		x := w.E.InvokeAsync([]byte("after"), vh.InvokeOpts{})
@@ -410,6 +398,26 @@ func runC10(c *Ctx, d c10Desc) {
 		ok := nxt.Wait(6*time.Second) && nxt.Err == nil && bytes.Equal(nxt.W.Body(), EchoBody([]byte("next-one")))
 		c.Check(ok, "next_ok", "C10/next-fails/"+d.Phase, "the next sequential invocation (after reset) failed", vh.ErrName(nxt.Err))
 	}
+	if d.Phase == "initTimedOut" {
+		// only now does the first caller's helper get to act on the failed initialisation: whatever it does must not
+		// touch the generation that has just served an invocation
+		hk.Release("invoke.initFailed")
+		time.Sleep(150 * time.Millisecond)
+		nxt2 := w.E.InvokeAsync([]byte("next-two"), vh.InvokeOpts{})
+		ok := nxt2.Wait(8*time.Second) && nxt2.Err == nil && bytes.Equal(nxt2.W.Body(), EchoBody([]byte("next-two")))
+		c.Check(ok, "next_ok", "C10/next-fails/initTimedOut/after-helper", "the second invocation after the timed-out one failed (the helper of the timed-out invocation acted on a later generation)", vh.ErrName(nxt2.Err))
+	}
+	if d.Phase == "initTimedOut" {
+		n := 0
+		for _, e := range w.E.Log.Snapshot() {
+			if e.Kind == "ret" && e.Op == "next" && e.Status == 200 && e.Len == len(payload) && e.Sha == vh.Digest(payload) {
+				n++
+			}
+		}
+		c.Check(n == 0, "timed_out_not_dispatched", fmt.Sprintf("C10/timed-out-invocation-dispatched/%d", n), "the invocation that timed out while waiting for init was delivered to a runtime after extra callers had been refused", nil)
+		c.Check(len(first.W.Body()) == 0 && first.W.LateWrites() == 0, "first_body", "C10/first-body/"+d.Phase, "the timed-out invocation received a body", string(first.W.Body()))
+	}
+
 	c.SetHooks(hk.Arrived())
 	c.SetTrace(NormTrace(w.E.Log.Snapshot(), func(e vh.Event) bool { return e.Src != "hook" && e.Kind != "write" }), true)
 	c.SetInterleaving(d.Phase + fmt.Sprintf("/x%d", d.Extra))
